@@ -81,10 +81,13 @@ impl<T> HostMatcher<T> {
             !matcher.is_empty()
         });
 
-        self.regex_tree_rule.retain(&|_, matcher| {
-            matcher.remove(id);
-            !matcher.is_empty()
-        });
+        for matcher in self.regex_tree_rule.iter_mut() {
+            if let Some(value) = matcher.remove(id) {
+                removed = Some(value);
+            }
+        }
+
+        self.regex_tree_rule.retain(&|_, matcher| !matcher.is_empty());
 
         if removed.is_some() {
             self.count -= 1;
